@@ -4,8 +4,11 @@
    characters, first-item rules, nesting levels, empty containers, key order, skipped NONE members, class names,
    escapes) and every scalar form (ints, reals in fixed and scientific %g notation at the four precisions, -0, NaN,
    infinities, NONE).  Per case TLC prints the exact text  Ser(tree, mode)  and the value decoding it must give;
-   harness/c05_replay builds the Var, calls Xdl::encode / Json::encode / Xdl::write / Json::write with that mode and
-   compares byte for byte, then decodes.
+   harness/c05_replay builds the Var, calls Xdl::encode / Json::encode / Xdl::write / Json::write with that mode, decodes
+   the real text with the real decoder (value must be exp), and compares the bytes with Ser: equal bytes need nothing more
+   (the laws below are proved for them); a real text that differs from Ser is NOT a failure - the exact layout is not
+   part of C05 - but a *deviation*: it is logged and judged by TLC on the real text itself (Trace_XdlWriterDev: recognizer /
+   parser design accept it with value Lossy(tree), number tokens within the digits law of the mode, documented flag promises).
 
    Laws checked by TLC on the specification itself, for every enumerated pair (the writer's dialects are inside the
    reader's languages and denote the same value):
@@ -14,6 +17,7 @@
                the digit tables g of the leaves)
      XdlLaw    XDL dialect, identifier keys: the design of the parser (XdlSM) accepts Ser(tree, mode) with value Lossy(tree)
                (a "$type" member comes back as that member)
+     PromiseLaw Ser keeps what include/asl/JSON.h documents for the flags (XdlWriter!ModePromises)
      LayoutLaw PRETTY texts end with a newline, contain no blank or space-terminated line and no TAB outside the
                indentation; non-PRETTY texts contain no newline, TAB or space outside strings
      ModeLaw   Ser does not depend on the undocumented bits COMPACT / EXACT                                   *)
@@ -256,13 +260,6 @@ JsonLaw == (n >= 1 /\ IsJson(ModeOf(n))) =>
 XdlLaw == (n >= 1 /\ ~IsJson(ModeOf(n)) /\ XdlApplies(n)) =>
               LET r == Decode(Ser(TreeOf(n), ModeOf(n))) IN r.ok /\ WDenotes(r.v, Lossy(TreeOf(n)), ModeOf(n))
 \* layout of the text outside strings
-RECURSIVE Unquoted(_, _, _)
-\* the text with every string literal replaced by one '"'
-Unquoted(t, i, instr) ==
-    IF i > Len(t) THEN <<>>
-    ELSE IF instr THEN (IF t[i] = 92 THEN Unquoted(t, i + 2, TRUE) ELSE IF t[i] = 34 THEN Unquoted(t, i + 1, FALSE) ELSE Unquoted(t, i + 1, TRUE))
-    ELSE IF t[i] = 34 THEN <<34>> \o Unquoted(t, i + 1, TRUE)
-    ELSE <<t[i]>> \o Unquoted(t, i + 1, FALSE)
 LayoutLaw == (n >= 1 /\ (IsJson(ModeOf(n)) \/ XdlApplies(n))) =>
     LET m == ModeOf(n)
         u == Unquoted(Ser(TreeOf(n), m), 1, FALSE)
@@ -273,6 +270,8 @@ LayoutLaw == (n >= 1 /\ (IsJson(ModeOf(n)) \/ XdlApplies(n))) =>
                                      /\ (u[i] = 32 => u[i + 1] \notin {10, 32})          \* no trailing / double space
                                      /\ (u[i + 1] = 9 => u[i] \in {9, 10})               \* TABs only as indentation
        ELSE \A i \in 1..L : u[i] \notin {9, 10, 13, 32}
+\* the specification's own serializer keeps the documented promises of the flags (XdlWriter!ModePromises)
+PromiseLaw == (n >= 1 /\ (IsJson(ModeOf(n)) \/ XdlApplies(n))) => ModePromises(Ser(TreeOf(n), ModeOf(n)), ModeOf(n), TreeOf(n))
 ModeLaw == n >= 1 => \A x \in {0, 4, 16, 20} : Ser(TreeOf(n), (ModeOf(n) % 4) + 8 * ((ModeOf(n) \div 8) % 2) + 32 * ((ModeOf(n) \div 32) % 2) + x)
                                                  = Ser(TreeOf(n), ModeOf(n))
 
@@ -296,6 +295,6 @@ Bare(t) == LET k == WKind(t) IN
            ELSE t
 WEmit == LET t == TreeOf(n')
              m == ModeOf(n')
-         IN PrintT(ToJson([c |-> n', act |-> act', tree |-> Bare(t), mode |-> m, text |-> Ser(t, m), lay |-> ~Undocumented(m),
+         IN PrintT(ToJson([c |-> n', act |-> act', tree |-> Bare(t), ti |-> TreeIdx(n'), mode |-> m, text |-> Ser(t, m), lay |-> ~Undocumented(m),
                            exp |-> WExp(Lossy(t)), approx |-> (Simple(m) \/ ShortF(m)), xdl |-> XdlApplies(n'), hz |-> {}]))
 ===============================================================================
